@@ -89,7 +89,8 @@ func fnMetrics(v *FnVector) map[string]interface{} {
 	p := safely(func() {
 		var fams []generator.FamilyGenerator
 		var obj interface{}
-		meta := metav1.ObjectMeta{Namespace: "ns1", Name: "foo", Labels: map[string]string{"extendeddaemonset.datadoghq.com/name": "foo", "team": "x"}, Annotations: map[string]string{}}
+		meta := metav1.ObjectMeta{Namespace: "ns1", Name: "foo", Labels: map[string]string{"extendeddaemonset.datadoghq.com/name": "foo", "team": "x"}, Annotations: map[string]string{},
+			CreationTimestamp: metav1.NewTime(time.Unix(1700000000, 0))}
 		if v.Kind == "eds" {
 			e := &edsv1.ExtendedDaemonSet{ObjectMeta: meta}
 			e.Status.Desired, e.Status.Current, e.Status.Ready = int32(v.Status["desired"]), int32(v.Status["current"]), int32(v.Status["ready"])
@@ -99,6 +100,14 @@ func fnMetrics(v *FnVector) map[string]interface{} {
 				for i := 0; i < v.Status["canaryNodes"]; i++ {
 					e.Status.Canary.Nodes = append(e.Status.Canary.Nodes, fmt.Sprintf("n%d", i))
 				}
+			}
+			switch v.CPaused {
+			case "true":
+				e.Status.Conditions = append(e.Status.Conditions, edsv1.ExtendedDaemonSetCondition{Type: edsv1.ConditionTypeEDSCanaryPaused, Status: "True", Reason: "CrashLoopBackOff"})
+			case "false":
+				e.Status.Conditions = append(e.Status.Conditions, edsv1.ExtendedDaemonSetCondition{Type: edsv1.ConditionTypeEDSCanaryPaused, Status: "False"})
+			case "falseReason":
+				e.Status.Conditions = append(e.Status.Conditions, edsv1.ExtendedDaemonSetCondition{Type: edsv1.ConditionTypeEDSCanaryPaused, Status: "False", Reason: "CrashLoopBackOff"})
 			}
 			// the gauges mirror status.state (itself a function of the annotations, C08/C14)
 			e.Status.State = edsv1.ExtendedDaemonSetStatusStateRunning
